@@ -269,5 +269,10 @@ def run(ctx):
     r3_1_2(ctx)
     r3_3(ctx)
     r3_5(ctx)
+    from . import c10, c12
+    c10.r10_3(ctx)
+    c10.r10_4(ctx)
+    c10.r10_4_units(ctx)
+    c12.r12_1(ctx)
     for k, v in PAIR_EXEMPT.items():
         ctx.trust(f"frozen pairing exemption: {k} - {v}")
